@@ -597,14 +597,16 @@ def read_pandas(
     if kwargs.get("comment"):
         # if comment is provided, step through lines of b_sample and strip out comments
         parts = []
+        encoding = kwargs.get("encoding") or "utf-8"
         for part in b_sample.split(b_lineterminator):
             if skip_blank and len(parts) == firstrow and is_blank(part):
                 continue
-            split_comment = part.decode().split(kwargs.get("comment"))
+            split_comment = part.decode(encoding).split(kwargs.get("comment"))
             if len(split_comment) > 1:
                 # if line starts with comment, don't include that line in parts.
                 if len(split_comment[0]) > 0:
-                    parts.append(split_comment[0].strip().encode())
+                    stripped = split_comment[0].strip().encode(encoding)
+                    parts.append(stripped[len(empty_blob) :])
             else:
                 parts.append(part)
             if len(parts) > max(lastskiprow + need, firstrow + need):
